@@ -93,7 +93,7 @@ def run_case(rng, idx, tier, lane, ctx):
     if pyt0:
         cls.append("python-t0")
     try:
-        m = S.build_sim(spec, theta, x0, t0=t0, grown=(rng, grow_k) if grow_k else None)
+        m = S.build_sim(spec, theta, x0, t0=t0, grown=(rng, grow_k) if grow_k else None, forms=rng)
     except Exception as e:
         return {"status": "violated", "sample": spec, "counters": counters,
                 "witnesses": [{"what": "model construction / initial values raised", "error": short_exc(e), "tb": tb_tail(e)}]}
